@@ -138,7 +138,15 @@ Definition LAYER_CONTENTS_FILE := "layercontents.plist".
 (** * Layers *)
 (** [plain_name]: the path is a single normal component *)
 Definition plain_name (r : rel) : option string := match r with [Normal s] => Some s | _ => None end.
-(** the loop of [LayerContents::load] over ALL entries, in file order, before any filtering *)
+(** [str::to_lowercase] on the plain name; ASCII here (every generated name is ASCII; the theorems
+    do not depend on what this function is) *)
+Definition lower_ascii (a : Ascii.ascii) : Ascii.ascii :=
+  let n := Ascii.N_of_ascii a in
+  if (65 <=? n)%N && (n <=? 90)%N then Ascii.ascii_of_N (n + 32) else a.
+Fixpoint lower (s : string) : string :=
+  match s with EmptyString => EmptyString | String a r => String (lower_ascii a) (lower r) end.
+(** the loop of [LayerContents::load] over ALL entries, in file order, before any filtering;
+    directories are compared lower-cased, like the set of taken directories (f6784f0) *)
 Fixpoint validate_layers (seen_n seen_d : list string) (ls : list (string * rel)) : option lerr :=
   match ls with
   | [] => None
@@ -147,10 +155,10 @@ Fixpoint validate_layers (seen_n seen_d : list string) (ls : list (string * rel)
       | None => Some (InvalidLayerDirectory nr.1)
       | Some d =>
           if bool_decide (nr.1 ∈ seen_n) then Some (DuplicateLayerName nr.1)
-          else if bool_decide (d ∈ seen_d) then Some DuplicateLayerDirectory
+          else if bool_decide (lower d ∈ seen_d) then Some DuplicateLayerDirectory
           else if bool_decide (nr.1 = DEFAULT_LAYER_NAME) && negb (bool_decide (d = DEFAULT_GLYPHS_DIRNAME))
                then Some ReservedLayerName
-          else validate_layers (nr.1 :: seen_n) (d :: seen_d) rest
+          else validate_layers (nr.1 :: seen_n) (lower d :: seen_d) rest
       end
   end.
 (** the loop of [Layer::load_impl] over contents.plist, in glyph-name order *)
@@ -160,8 +168,8 @@ Fixpoint validate_glifs (seen : list string) (gs : list (string * rel)) : option
   | g :: rest =>
       match plain_name g.2 with
       | None => Some LInvalidGlyphFileName
-      | Some fn => if bool_decide (fn ∈ seen) then Some LDuplicateGlyphFileName
-                   else validate_glifs (fn :: seen) rest
+      | Some fn => if bool_decide (lower fn ∈ seen) then Some LDuplicateGlyphFileName
+                   else validate_glifs (lower fn :: seen) rest
       end
   end.
 (** [Layer::load_impl] *)
@@ -428,13 +436,15 @@ Definition load_layer_set_skeleton :=
 Definition layercontents_load_skeleton :=
   [("exists", LAYER_CONTENTS_FILE); ("read_plist", LAYER_CONTENTS_FILE); ("err", "ParsePlist");
    (* the validation loop over all entries comes BEFORE the filter *)
-   ("err", "InvalidLayerDirectory"); ("err", "DuplicateLayerName"); ("err", "DuplicateLayerDirectory");
+   ("err", "InvalidLayerDirectory"); ("seen", "names: name"); ("err", "DuplicateLayerName");
+   ("seen", "dirs: dir.to_string_lossy().to_lowercase()"); ("err", "DuplicateLayerDirectory");
    ("err", "ReservedLayerName");
    ("guard", "filter.should_load"); ("call", "Layer::load_impl <path>"); ("err", "Layer");
    ("guard", "!filter.includes_default_layer() && !layers.iter().any(Layer::is_default)"); ("err", "MissingDefaultLayer")].
 Definition layer_load_skeleton :=
   [("exists", CONTENTS_FILE); ("err", "MissingContentsFile"); ("read_plist", CONTENTS_FILE); ("err", "ParsePlist");
-   ("err", "InvalidGlyphFileName"); ("err", "DuplicateGlyphFileName");
+   ("err", "InvalidGlyphFileName"); ("seen", "files: file_name.to_string_lossy().to_lowercase()");
+   ("err", "DuplicateGlyphFileName");
    ("call", "Glyph::load_with_names <glyph_path>"); ("err", "Glyph");
    ("exists", LAYER_INFO_FILE); ("call", "parse_layer_info " +:+ LAYER_INFO_FILE)].
 Definition parse_layer_info_skeleton := [("read_plist", ""); ("err", "ParsePlist")].
